@@ -54,7 +54,7 @@ def run(ctx, rep):
     rep.not_decided = "that rename_all case conversion of variant identifiers equals serde's (C16)."
     rep.trusted = ['syn', 'astq evaluator', 'serde_derive source named by Cargo.lock (symbol table)', 'facet table from the property text']
     T = emit.Types(ctx.astq)
-    pr.all_attrs_rule(ctx, rep, 'VA')
+    pr.all_attrs_rule(ctx, rep, 'VA', ('get_ident', 'serde_rename_all', 'get_tag_key', 'get_content_key'), 6)
     v1(ctx, rep, T)
     v2(ctx, rep)
     printers(ctx, rep, T)
